@@ -453,6 +453,71 @@ pub fn table_pnmsg(dir: &str, tier: &str, seed: u64, per: usize) -> (usize, u64)
         let v = if ctor % 4 == 1 { r.below(16384) } else { r.below(128) } as i64;
         w.push(&pnmsg_row(ctor, r.below(16) as i64, r.below(16384) as i64, v, r.below(2) as i64, r.below(2) as i64));
     }
+    // the encoder is a FUNCTION of the message: the same rows again, each computed directly after a
+    // neighbour of the message (one bit of one field flipped, or another constructor / byte order) was
+    // encoded on the same thread
+    for _ in 0..(if full { 20000 } else { 1500 }) {
+        let ctor = r.below(8) as i64;
+        let wide = ctor % 4 == 1;
+        let (ch, num) = (r.below(16) as i64, r.below(16384) as i64);
+        let v = if wide { r.below(16384) } else { r.below(128) } as i64;
+        let (ord, fac) = (r.below(2) as i64, r.below(2) as i64);
+        let mut neighbours: Vec<[i64; 5]> = vec![];
+        for b in 0..14 {
+            neighbours.push([ctor, ch, num ^ (1 << b), v, ord]);
+        }
+        for b in 0..(if wide { 14 } else { 7 }) {
+            neighbours.push([ctor, ch, num, v ^ (1 << b), ord]);
+        }
+        for b in 0..4 {
+            neighbours.push([ctor, ch ^ (1 << b), num, v, ord]);
+        }
+        neighbours.push([ctor ^ 4, ch, num, v, ord]);
+        neighbours.push([ctor, ch, num, v, 1 - ord]);
+        if !wide {
+            for c2 in [0, 2, 3] {
+                neighbours.push([(ctor & 4) | c2, ch, num, v, ord]);
+            }
+        }
+        for nb in neighbours {
+            // an unrelated message first, so that whatever the encoder may remember is not this message itself
+            let _ = pnmsg_row(ctor ^ 1, (ch + 5) % 16, (num + 4321) % 16384, (v + 77) % 128, 1 - ord, 1 - fac);
+            let _ = pnmsg_row(nb[0], nb[1], nb[2], nb[3], nb[4], fac);
+            w.push(&pnmsg_row(ctor, ch, num, v, ord, fac));
+        }
+    }
+    // ... and of nothing else: several threads encoding different messages at the same time
+    let handles: Vec<_> = (0..4i64)
+        .map(|t| {
+            std::thread::spawn(move || {
+                let mut rows = vec![];
+                let n = if full { 60000 } else { 15000 };
+                for i in 0..n {
+                    let row = match t {
+                        0 => pnmsg_row(5, t, 1000 + 300 * t, 12000 + t + (i % 3), 0, 0),
+                        1 => pnmsg_row(3, (i % 16) as i64, 7 + (i % 5) as i64, (i % 128) as i64, (i % 2) as i64, 0),
+                        2 => pnmsg_row(0, 9, 16383 - (i % 7) as i64, 127 - (i % 2) as i64, 0, (i % 2) as i64),
+                        _ => pnmsg_row(1, 15, (i * 37 % 16384) as i64, (i * 101 % 16384) as i64, 1, 0),
+                    };
+                    if i % 16 == 0 || rows.len() < 64 {
+                        rows.push(row);
+                    } else {
+                        // keep every row that differs from the first one of its kind in shape (cheap filter
+                        // that never drops a wrong row of thread 0, whose message is fixed up to `i % 3`)
+                        if t == 0 || row.len() != rows[0].len() {
+                            rows.push(row);
+                        }
+                    }
+                }
+                rows
+            })
+        })
+        .collect();
+    for h in handles {
+        for row in h.join().expect("encoder thread") {
+            w.push(&row);
+        }
+    }
     w.finish()
 }
 
